@@ -2,14 +2,10 @@
    translator/cmd/annotate) are equal to the hand model of Annotate/Model.v.  These are proof
    obligations of every run: if the Go source changes meaning, a lemma here stops compiling. *)
 From Coq Require Import ZArith List Bool Lia Arith.
-From Verif Require Import Annotate.Model Annotate.Date.
+From Verif Require Import Annotate.Model Annotate.Date Annotate.GenConst.
 From VerifGen Require Import GenAnnotate.
 Import ListNotations.
 Open Scope Z_scope.
-
-(* osm.CommitInfoStart as written in update.go *)
-Definition commit_info_start : Z :=
-  match unix_nanos gen_commit_info_start_args with Some x => x | None => 0 end.
 
 Lemma commit_info_start_ok : unix_nanos gen_commit_info_start_args = Some 1347442203000000000.
 Proof. vm_compute. reflexivity. Qed.
